@@ -59,8 +59,12 @@ type (
 // GetBlocksInSegment returns the absolute number (including header) of blocks that may
 // be in a segment with the size of each block = blkSize.
 // It returns -1 if blkSize invalid (not acceptable)
+// maxBlkSize limits the block size, so the segment size (blkSize*8+1)*blkSize
+// cannot overflow
+const maxBlkSize = 1 << 27
+
 func GetBlocksInSegment(blkSize int) int {
-	if blkSize <= 0 {
+	if blkSize <= 0 || blkSize > maxBlkSize {
 		return -1
 	}
 	pageSize := os.Getpagesize()
@@ -87,7 +91,7 @@ func GetBlocksInSegment(blkSize int) int {
 func NewBlocks(bs int, bts Buffer, fit bool) (*Blocks, error) {
 	// get absolute number of blocks in a segment
 	blksInSegm := GetBlocksInSegment(bs)
-	if bs < 0 {
+	if blksInSegm < 0 {
 		return nil, fmt.Errorf("incorrect block size=%d, should multiple on naturanl integer to get %d: %w ", bs, os.Getpagesize(), errors.ErrInvalid)
 	}
 
